@@ -98,9 +98,8 @@ def _gen_ovni_h(dst, evbuf=None):
         f.write(src)
 
 
-WRAPS = ["open", "write", "close", "mkdir", "stat", "fopen", "fclose", "fread",
-         "fwrite", "fputs", "remove", "rmdir", "opendir", "readdir", "closedir",
-         "clock_gettime", "getenv", "abort"]
+WRAPS = ["open", "write", "close", "mkdir", "stat", "fopen", "remove", "rmdir",
+         "opendir", "readdir", "closedir", "clock_gettime", "getenv", "abort"]
 
 SMALL_EVBUF = 4096
 
